@@ -326,7 +326,9 @@ func appendData[T any](a, b map[string][]T, aLen, bLen int, nilVal func() T) map
 	finalData := make(map[string][]T)
 
 	for atr, data := range a {
-		finalData[atr] = data
+		// Copy, never extend the receiver's slice in place: its spare
+		// capacity may already belong to another mesh derived from it
+		finalData[atr] = append(make([]T, 0, len(data)+bLen), data...)
 
 		if _, ok := b[atr]; !ok {
 			for i := 0; i < bLen; i++ {
@@ -359,8 +361,15 @@ func (m Mesh) Append(other Mesh) Mesh {
 	finalV3Data := appendData(m.v3Data, other.v3Data, mAtrLength, oAtrLength, func() vector3.Vector[float64] { return vector3.Zero[float64]() })
 	finalV4Data := appendData(m.v4Data, other.v4Data, mAtrLength, oAtrLength, func() vector4.Vector[float64] { return vector4.Zero[float64]() })
 
-	finalTris := append(m.indices, other.indices...)
-	finalMaterials := append(m.materials, other.materials...)
+	// Copy, never extend the receiver's slices in place: their spare capacity
+	// may already belong to another mesh derived from the receiver
+	finalTris := make([]int, 0, len(m.indices)+len(other.indices))
+	finalTris = append(finalTris, m.indices...)
+	finalTris = append(finalTris, other.indices...)
+
+	finalMaterials := make([]MeshMaterial, 0, len(m.materials)+len(other.materials))
+	finalMaterials = append(finalMaterials, m.materials...)
+	finalMaterials = append(finalMaterials, other.materials...)
 	for i := len(m.indices); i < len(finalTris); i++ {
 		finalTris[i] += mAtrLength
 	}
